@@ -664,14 +664,23 @@ ctl('j4-grid-reset-on-join', 'C20', 'J4', DG,
 ctl('j4-state-replaced-on-join', 'C16', 'J4', VJ,
     """	state, ok := s.ModuleState(m.Name())
 	if !ok {
-		state = &State{}
-		s.SetModuleState(m.Name(), state)
+		state = s.LoadOrStoreModuleState(m.Name(), &State{})
 	}""",
     """	state, ok := s.ModuleState(m.Name())
 	if !ok || p.ID == 1 {
 		state = &State{}
 		s.SetModuleState(m.Name(), state)
 	}""", 'vikja.(*Module).Init')
+ctl('j4-private-state-on-join', 'C16', 'J3', VJ,
+    """	state, ok := s.ModuleState(m.Name())
+	if !ok {
+		state = s.LoadOrStoreModuleState(m.Name(), &State{})
+	}""",
+    """	state, ok := s.ModuleState(m.Name())
+	if !ok {
+		state = &State{}
+		s.LoadOrStoreModuleState(m.Name(), state)
+	}""", 'vikja.(*Module).Init', 'the module binds to the state it made, not to the one the session says is registered')
 ctl('j3-module-keeps-old-session', 'C03', 'J3', OD,
     """func (m *Module) Init(s *models.Session, p *models.Participant) {
 	m.currentSession = s
@@ -1012,14 +1021,14 @@ ctl('e7-lenient-lookup', 'C03', 'E7', SE,
 	return session, ok""", 'GetByGlobalID', 'lenient lookup: ids that merely resemble a live id resolve',
     edits=[dict(file='models/session.go', old='import (\n\t"context"\n\t"fmt"\n', new='import (\n\t"context"\n\t"fmt"\n\t"strings"\n')])
 ctl('e7-id-released-outside-lock', 'C07', 'E7', SE,
-    """	delete(s.sessions, s.GlobalSessionID(session.ID))
+    """	delete(s.sessions, id)
 	session.Close()
 
 	s.ids.Reuse(session.ID)
 
 	instrumentDecreaseSessionGauge(session.AppKey)
 }""",
-    """	delete(s.sessions, s.GlobalSessionID(session.ID))
+    """	delete(s.sessions, id)
 	session.Close()
 	s.mutex.Unlock()
 
@@ -1028,6 +1037,56 @@ ctl('e7-id-released-outside-lock', 'C07', 'E7', SE,
 	instrumentDecreaseSessionGauge(session.AppKey)
 	s.mutex.Lock()
 }""", 'Remove:one-critical-section')
+REMOVE_GUARD = """	if registered, ok := s.sessions[id]; !ok || registered != session {
+		return
+	}
+"""
+for prop, rule, expect in [('C07', 'E7', 'Remove:idempotent'), ('C10', 'E8', 'leaveSession:session:empty'), ('C09', 'E8', 'leaveSession:session:empty')]:
+    ctl('e7-remove-twice-' + prop.lower(), prop, rule, SE, REMOVE_GUARD, "", expect,
+        'defect repaired in 5285479: Remove acted on a session that was no longer registered (two simultaneous last departures)')
+for mod, lit in [('vikja', '&State{}'), ('odal', '&State{}'), ('dagaz', '&State{SpatialPartition: NewRegularGrid(1, 1, 2)}')]:
+    for prop in ('C01', 'C09'):
+        ctl('e8-init-two-steps-%s-%s' % (mod, prop.lower()), prop, 'E8', 'modules/%s/%s.go' % (mod, mod),
+            "		state = s.LoadOrStoreModuleState(m.Name(), %s)\n" % lit,
+            "		state = %s\n		s.SetModuleState(m.Name(), state)\n" % lit,
+            'Init:modulestate:missing',
+            'defect repaired in bb3d1bf: lookup and registration of the module state in two critical sections')
+ctl('j4-loadorstore-replaces', 'C16', 'J4', SE,
+    """	if registered, ok := s.moduleStates[moduleName]; ok {
+		return registered
+	}
+	s.moduleStates[moduleName] = state
+	return state""",
+    """	if registered, ok := s.moduleStates[moduleName]; ok && registered == nil {
+		return registered
+	}
+	s.moduleStates[moduleName] = state
+	return state""", 'LoadOrStoreModuleState',
+    'an existing module state is replaced by a later joiner')
+ctl('j4-loadorstore-split', 'C09', 'E8a', SE,
+    """	s.moduleMutex.Lock()
+	defer s.moduleMutex.Unlock()
+
+	if registered, ok := s.moduleStates[moduleName]; ok {
+		return registered
+	}
+	s.moduleStates[moduleName] = state
+	return state""",
+    """	s.moduleMutex.RLock()
+	registered, ok := s.moduleStates[moduleName]
+	s.moduleMutex.RUnlock()
+	if ok {
+		return registered
+	}
+	s.moduleMutex.Lock()
+	defer s.moduleMutex.Unlock()
+	s.moduleStates[moduleName] = state
+	return state""", 'LoadOrStoreModuleState',
+    'lookup and registration in two critical sections again, inside the model')
+ctl('e7-remove-any-registered', 'C07', 'E7', SE,
+    """	if registered, ok := s.sessions[id]; !ok || registered != session {""",
+    """	if _, ok := s.sessions[id]; !ok {""", 'Remove:idempotent',
+    'a stale departure unregisters a newer session that was given the same id')
 ctl('b7-unchanged-pose-not-relayed', 'C02', 'B7', RT,
     """	if update.Pose == nil {
 		return nil
